@@ -318,6 +318,36 @@ def r_shape_predicates(mod, rep, R='R13.2'):
                   'Category.%s is %s' % (prop, show(ps[0][0].ret) if ps and ps[0][0].ret else '?'))
 
 
+def r_results_are_values(repo, rep, R='R13.5'):
+    """what a grammar rule hands back is a category object, not its text: a str equals the category (== falls back to the canonical
+    text) but hashes differently and has none of its methods, so the id table gives the "same" category a second id and the
+    next combination raises."""
+    from .. import symcat as sc, rules_grammar as rg
+    from ..pygrammar import combinator_functions
+    from ..pysym import show
+    n = 0
+    for grel in (rg.EN, rg.JA):
+        g = repo.module(grel)
+        for name, fn in combinator_functions(g):
+            for o in sc.outcomes(fn):
+                if not isinstance(o.result, dict):
+                    continue
+                t = o.result['cat']
+                text = None
+                if t[0] == 'const' and isinstance(t[1], str):
+                    text = t[1]
+                elif t[0] == 'name':
+                    a = g.assign(t[1], required=False)
+                    if a is not None and isinstance(getattr(a, 'value', None), ast.Constant) and isinstance(a.value.value, str):
+                        text = a.value.value
+                n += 1
+                rep.check(text is None, R, '%s:%s %s' % (grel, getattr(o.node, 'lineno', fn.lineno), name), '%s:%s:result-is-category' % (grel, name),
+                          '%s: the result category is a category object (%s)' % (name, show(t)[:40]),
+                          '%s: the result category is the text %r, not a category object: it compares equal to the category but hashes as a '
+                          'str (a second id in the parser\'s table) and has no clear_features / left / right' % (name, text))
+    return n
+
+
 def check(repo, rep, tier):
     mod = repo.module(REL)
     rep.rule('R13.1', 'frozen dataclasses, eq enabled, no explicit __hash__: generated hash covers exactly the declared fields')
@@ -332,4 +362,6 @@ def check(repo, rep, tier):
     from ..lints import r_module_state
     r_module_state(repo, rep, 'R13.4', ['depccg/cat.py', 'depccg/grammar/en.py'],
                    'an erasure remembered under the category alone answers a later request for other feature names')
+    rep.rule('R13.5', 'grammar rules return category objects, never the text of one (equal by ==, but a different hash and no methods)')
+    rep.floor('rule results that are category objects', r_results_are_values(repo, rep), 30)
     rep.floor('value classes', len(CLASSES), 4)
